@@ -489,6 +489,7 @@ def rep_leaves():
         L("Affine", shape=[]), L("MAF", dim=3, cond=2, tr="minscale"), L("Planar", dim=3, cond=2, slope=None),
         L("BNAF", dim=2, cond=None, depth=1, bd=2), L("Loc", shape=[2, 1, 2]), L("AddCond", shape=[2, 3], cond=[]),
         L("Affine", shape=[3], bscale=True), L("Exp", shape=[1]),
+        L("BNAF", dim=2, cond=2, depth=2, bd=2),  # conditional AND >= 2 hidden layers: the two copies of the layer loop must agree
     ]
 
 
